@@ -380,7 +380,7 @@ def build_pair_query(db, prog, name, pairing=None, extra_cuts=None, propid='C01'
         ren(bx)
     lx = [n for k, n in segments.order_positions(bx) if k == 'label']
     lr = [n for k, n in segments.order_positions(br) if k == 'label']
-    common = [l for l in lx if l in set(lr)]
+    common = [l for l in lx if l in set(lr) and not re.match(r'^bx_loop\d+_(cont|end)$', l)]   # only loop HEADS cut a lowered loop
     need = set(segments.backward_targets(bx)) | set(segments.backward_targets(br))
     missing = [l for l in need if l not in common]
     if missing:
@@ -525,6 +525,39 @@ def build_pair_query(db, prog, name, pairing=None, extra_cuts=None, propid='C01'
             st = 'r_%s = %s;' % (nm, lit(vals[0]))
         setup_entry.append('  ' + st)
         setup_cut.append('  ' + st)
+    # counters of DO/for loops with literal bounds: lo <= i <= hi+1 at every cut point (assumed on entry to a segment,
+    # asserted again on arrival), so that indexing inside a segment that starts at the loop head stays in range
+    def loop_ranges(body, pfx):
+        out = []
+
+        def fs(s):
+            if s.kind == 'for' and s.init is not None and s.cond is not None:
+                try:
+                    if s.init.kind == 'expr' and s.init.e.k == 'assign':
+                        v, lo = s.init.e.a, s.init.e.b
+                    elif s.init.kind == 'decl':
+                        v, lo = E('var', name=s.init.name, extra='local'), s.init.init
+                    else:
+                        v = None
+                    c = s.cond
+                    while c is not None and c.k == 'paren':
+                        c = c.a
+                    if v is not None and v.k == 'var' and lo.k == 'ilit' and c.k == 'bin' and c.op in ('<=', '<') and c.b.k == 'ilit' and c.a.k == 'var' and c.a.name == v.name:
+                        hi = int(c.b.name.split()[0]) + (1 if c.op == '<=' else 0)
+                        out.append('%s%s >= %s && %s%s <= %d' % (pfx, v.name, lo.name.split()[0], pfx, v.name, hi))
+                except AttributeError:
+                    pass
+            for y in getattr(s, 'items', []) or []:
+                fs(y)
+            for a in ('then', 'els', 'stmt', 'body'):
+                y = getattr(s, a, None)
+                if isinstance(y, S):
+                    fs(y)
+        fs(body)
+        return out
+    for cnd in loop_ranges(bx0, 'x_') + loop_ranges(br0, 'r_'):
+        setup_cut.append('  __CPROVER_assume(%s);' % cnd)
+        checks.append(('loop counter range', '(nx == %d) || (%s)' % (segments.BX_EXIT, cnd)))
     for ln in hooks.get('extra_setup', []):
         setup_entry.append(ln)
         setup_cut.append(ln)
